@@ -779,6 +779,12 @@ func (e *Env) callExpr(ex *ast.CallExpr, hint types.Type) Val {
 				}
 			}
 			return Val{T: boolT, S: fmt.Sprintf("(%s (%s) %s)", q, strings.Join(binders, " "), inner)}
+		case "tpos": // ghost: number of input bytes delivered by the underlying readers so far
+			return Val{T: intT, S: c.fromIdx(intT, c.region(e.st, "$tpos"))}
+		case "tape": // ghost: the k-th byte of the input tape
+			k := e.eval(ex.Args[0], intT)
+			c.declareFun("gtape", []string{"Int"}, c.intSort(8))
+			return Val{T: types.Typ[types.Uint8], S: sx("gtape", c.toIdx(k.T, k.S))}
 		case "wfault": // ghost: some write to an underlying io.Writer has failed so far
 			return Val{T: boolT, S: c.region(e.st, "$wfault")}
 		case "live":
